@@ -23,7 +23,9 @@ SPEC_KEYS = _SpecKeys()
 INTERNAL_KEYS = []
 
 RULE = ('sequences of <=30 operations on a pool of 4 DmxBuffers in raw storage (construct / copy-construct / '
-        'construct-from-data / destroy / assign / Set(buffer) / Set(ptr,len) / Set(string) / SetFromString(well-formed) / '
+        'construct-from-data / construct-from-string / destroy / assign / Set(buffer) / Set(ptr,len) / Set(string) / '
+        'SetFromString(arbitrary text: empty items, leading zeros, white space, signs, stop characters, values beyond '
+        'byte / int / long) / Set and SetRange with a pointer into another buffer (GetRaw()+k) / '
         'SetRangeToValue / SetRange / SetChannel / HTPMerge / Blackout / Reset), copy-assign-destroy-recreate and '
         'self-operations weighted heavily, offsets and lengths from {0,1,size-1,size,size+1,511,512,513,2^32-1} '
         'relative to the tracked size of the target; all observables compared after every operation; '
@@ -35,7 +37,10 @@ ASSUMPTIONS = ['operator new does not fail',
                'min(length,512-offset)); the harness passes exact-size heap arrays so ASan sees any over-read',
                'single-threaded use (the class is documented as not thread safe)']
 TRUSTED = ['modelled rather than verified: every method of common/utils/DmxBuffer.cpp except operator<< ; '
-           'SetFromString only for well-formed text "v0,v1,..." with 0<=v<=255 (malformed text is C20); '
+           'SetFromString for every text, with glibc atoi/strtol semantics (isspace skip, one sign, digits to the first other '
+           'character, LONG_MIN/LONG_MAX saturation, then int->uint8_t truncation); whether out-of-range items SHOULD be '
+           'accepted is finding C20-dmx-atoi-truncation, not judged here; raw-pointer arguments only into a DIFFERENT buffer '
+           'and inside its valid data (self-aliasing pointers are a memcpy-overlap contract breach); '
            'Set(const DmxBuffer&) is modelled with fixes/01-self-set-guard.diff applied',
            'harness reads private members (#define private public) and ASan allocator statistics '
            '(__sanitizer_get_current_allocated_bytes) for the internal observables only',
@@ -55,6 +60,41 @@ def rbytes(rng, n):
     if k < 0.3:
         return [rng.choice([0, 0, 0, 255, rng.randrange(256)]) for _ in range(n)]
     return [rng.randrange(256) for _ in range(n)]
+
+
+def gen_token(rng):
+    """one comma separated item, aimed at every branch of atoi: white space, sign, digits, stop character,
+    byte / int / long range"""
+    k = rng.random()
+    if k < 0.15:
+        return b''
+    if k < 0.5:
+        v = rng.choice([0, 1, 9, 10, 99, 100, 254, 255, rng.randrange(256)])
+        return (b'0' * rng.choice([0, 0, 0, 1, 3])) + str(v).encode()
+    if k < 0.62:
+        return str(rng.choice([256, 257, 266, 300, 511, 512, 1000, 65535, 65536, 2147483647, 2147483648,
+                               4294967295, 4294967296, 4294967297, rng.randrange(1 << 40)])).encode()
+    if k < 0.72:
+        return str(rng.choice([9223372036854775806, 9223372036854775807, 9223372036854775808,
+                               18446744073709551615, 18446744073709551616, 10 ** 25 + rng.randrange(1000)])).encode()
+    if k < 0.82:
+        return b'-' + str(rng.choice([0, 1, 2, 255, 256, 257, 2147483648, 9223372036854775807,
+                                      9223372036854775808, 9223372036854775809, 10 ** 22])).encode()
+    if k < 0.9:
+        ws = bytes(rng.choice([9, 10, 11, 12, 13, 32]) for _ in range(rng.choice([1, 1, 2, 3])))
+        return ws + rng.choice([b'', b'+', b'-']) + str(rng.randrange(300)).encode() + rng.choice([b'', b' ', b'x', b'.5'])
+    return rng.choice([b'+', b'-', b'+-5', b'--5', b'x', b'12x3', b'1 2', b' ', b'\x00', b'7\x009', b'\x8012',
+                       b'\x085', b'\x0e5', b'\x1f5', b'/5', b':5', b'+ 5', b'0x10', b'1e3', b'\xff'])
+
+
+def gen_text(rng, ntok):
+    """text for SetFromString with ntok items (0 = the empty string)"""
+    if ntok == 0:
+        return []
+    toks = [gen_token(rng) for _ in range(ntok)]
+    if ntok > 40:      # long texts: mostly plain numbers, keeps the payload small
+        toks = [str(rng.randrange(256)).encode() if rng.random() < 0.9 else t for t in toks]
+    return list(b','.join(toks))
 
 
 class Sim(object):
@@ -117,6 +157,11 @@ def gen_case(rng, big, nops):
                 ops.append('cpy,%d,%d' % (i, j))
                 if not sim.live[i]:
                     sim.live[i], sim.val[i] = True, sim.val[j]
+            elif k < 0.62:
+                n = pick_len()
+                ops.append('news,%d,%s' % (i, hx(rbytes(rng, n))))
+                if not sim.live[i]:
+                    sim.live[i], sim.val[i] = True, min(n, 512)
             elif k < 0.8:
                 n = pick_len()
                 d = rbytes(rng, n)
@@ -135,8 +180,8 @@ def gen_case(rng, big, nops):
             if sim.live[i]:
                 sim.live[i], sim.val[i] = False, None
             continue
-        kind = rng.choices(['asg', 'setb', 'htp', 'setp', 'sets', 'sfs', 'srv', 'sr', 'sc', 'bo', 'rst', 'cpy', 'new'],
-                           [14, 12, 10, 7, 3, 3, 8, 9, 10, 3, 4, 1, 1])[0]
+        kind = rng.choices(['asg', 'setb', 'htp', 'setp', 'sets', 'sft', 'srv', 'sr', 'sc', 'bo', 'rst', 'cpy', 'new', 'setraw', 'srraw'],
+                           [14, 12, 10, 7, 3, 5, 8, 9, 10, 3, 4, 1, 1, 5, 7])[0]
         i = any_idx()
         if kind in ('asg', 'setb', 'htp'):
             j = i if rng.random() < 0.22 else any_idx()
@@ -166,11 +211,36 @@ def gen_case(rng, big, nops):
                 ops.append('setp,%d,%s,%d' % (i, hx(d), n))
                 if sim.live[i]:
                     sim.val[i] = min(n, 512)
-        elif kind in ('sets', 'sfs'):
+        elif kind == 'sets':
             L = pick_len()
-            ops.append('%s,%d,%s' % (kind, i, hx(rbytes(rng, L))))
+            ops.append('sets,%d,%s' % (i, hx(rbytes(rng, L))))
             if sim.live[i]:
                 sim.val[i] = min(L, 512)
+        elif kind == 'sft':
+            text = gen_text(rng, pick_len())
+            ops.append('sft,%d,%s' % (i, hx(text)))
+            if sim.live[i]:
+                sim.val[i] = 0 if not text else min(bytes(text).count(b',') + 1, 512)
+        elif kind in ('setraw', 'srraw'):
+            # pointer into another buffer's storage: mostly inside its valid data, sometimes just outside
+            others = [x for x in live_idx() if x != i]
+            j = rng.choice(others) if others and rng.random() < 0.93 else rng.randrange(4)
+            zj = sim.size(j)
+            k = min(zj, rng.choice([0, 0, 0, 1, max(0, zj - 1), zj, zj // 2]))
+            room = zj - k
+            n = rng.choice([room, room, room, max(0, room - 1), 0, min(1, room)])
+            if rng.random() < 0.06:
+                n = room + 1           # one byte past the other's valid data: outside the contract, skipped
+            ok = sim.live[i] and sim.live[j] and i != j and k + n <= zj
+            if kind == 'setraw':
+                ops.append('setraw,%d,%d,%d,%d' % (i, j, k, n))
+                if ok and sim.val[j] is not None:
+                    sim.val[i] = min(n, 512)
+            else:
+                off = offs(i)
+                ops.append('srraw,%d,%d,%d,%d,%d' % (i, off, j, k, n))
+                if ok and sim.val[j] is not None:
+                    sim.rng_store(i, off, n)
         elif kind == 'srv':
             off = offs(i)
             room = max(0, 512 - off)
@@ -234,7 +304,8 @@ def gen_cases(rng, tier):
         'same': [],
     }
     mut = ['setb,0,0', 'htp,0,0', 'asg,0,0', 'setb,0,2', 'htp,0,2', 'asg,0,2', 'setb,2,0', 'htp,2,0', 'asg,2,0',
-           'setp,0,0102,2', 'setp,0,N,0', 'sets,0,-', 'sfs,0,-', 'sfs,0,0a14', 'srv,0,1,9,2', 'srv,0,4,9,1',
+           'setp,0,0102,2', 'setp,0,N,0', 'sets,0,-', 'sft,0,-', 'sft,0,31302c3230', 'sft,0,2c2c35', 'setraw,0,2,1,2', 'srraw,0,1,2,0,3',
+           'srraw,2,0,0,0,3', 'setraw,0,1,0,3', 'srraw,0,3,1,1,2', 'srraw,1,0,0,0,3', 'srv,0,1,9,2', 'srv,0,4,9,1',
            'sr,0,3,0708,2', 'sr,0,4,07,1', 'sc,0,3,9', 'sc,0,4,9', 'sc,0,511,1', 'bo,0', 'rst,0', 'del,0', 'del,2',
            'setb,0,1', 'htp,0,1', 'asg,0,1', 'setb,1,0', 'htp,1,0', 'asg,1,0']
     for pn, p in prep.items():
@@ -270,7 +341,11 @@ LEVEL_TEXT = ('Coq theorems, for every pool size and every finite sequence of Dm
               'answers to every read: Size, Get, GetRange, ToString, ==), so no operation on or destruction of one buffer '
               'changes what any other buffer shows, and refused operations change nothing.  The model is the code WITH '
               'fixes/01-self-set-guard.diff; the unfixed Set(const DmxBuffer&) is refuted inside Coq '
-              '(c02_self_set_refuted) and by ASan on /repo.  SetFromString is covered for well-formed text only.')
+              '(c02_self_set_refuted).  Extension round: every constructor and every method of DmxBuffer.h is in the model '
+              '(string constructor, operator!=, SetFromString on arbitrary text, pointers into another buffer obtained from '
+              'GetRaw()); proved in addition: per-operation return values along whole histories, invisibility of '
+              'uninitialised memory, every stored slot is a byte, ToString->SetFromString round trip after every history, '
+              'the documented text format, and that destroying every buffer after any history frees every block.')
 LEVEL_NOTE = ('Trusted: Coq kernel, extraction (ExtrOcamlBasic), OCaml/C++ glue, and that the hand-written model equals '
               'common/utils/DmxBuffer.cpp: validated by differential testing after every operation (API observables '
               'and refcount/cow/sharing/heap-block internals, ASan+UBSan build of the working tree), not proved.  '
